@@ -3,9 +3,11 @@
 
    What is a theorem here: the alias table describe() fills has one entry per name, the active set is restored by every call,
    and describeChildren() (which decides which names are extracted) covers every component describe() descends into.
-   What is not a theorem: termination on recursive types (decided by the correspondence stream and the search, see DESIGN.md),
-   and the round trip through the compiler (the compiler frontend is not modelled; decided by the search). *)
-From Beff Require Import Model.Describe Proofs.SortLemmas Proofs.C15.
+   Termination on recursive types is a theorem relative to a decidable condition on the reference counts (`term_okb`: the named
+   types printed in place do not reach themselves through types printed in place only), which the check evaluates on every
+   generated case; that collectDescribeRefs always produces such counts is not proved.
+   What is not a theorem: the round trip through the compiler (the compiler frontend is not modelled; decided by the search). *)
+From Beff Require Import Model.Describe Proofs.SortLemmas Proofs.C15 Proofs.C15Term.
 
 (* every alias is declared once: the table of extracted aliases has no duplicate name, the list the declarations are
    rendered from (sorted keys) has none either, and no name is left "active" *)
@@ -54,6 +56,64 @@ Example C15_nonvacuous :
       "type CodecT = { a: Node, b: Node, c: Leaf };").
 Proof. vm_compute. reflexivity. Qed.
 
+(* ---- describe() terminates on recursive types ----
+   For every environment of named types, every root type, every assignment of ranks: if the heights are at most H, and — for the
+   counts collectDescribeRefs computes — every named type reachable from the root (`rl`) refers to types printed in place (count <= 1)
+   of lower rank only (a type printed as an alias, count >= 2, may refer to anything: it is marked active while its body is printed),
+   then no fuel above (|env| + 1) * (R + 1) * (H + 1) is exhausted: describe() returns (or throws one of its own errors). *)
+Theorem C15_describe_terminates_on_recursive_types :
+  forall env ranks rl R H fuel name hide r,
+    forallb (fun e => Nat.leb (ht (snd e)) H) env = true ->
+    ht r <= H ->
+    (forall c, collect env fuel ([], []) r = Ok c ->
+               term_okb env (fst c) ranks rl R H = true /\ refs_ok (fst c) (rank_list ranks) rl R r = true) ->
+    (List.length env + 1) * ((R + 1) * (H + 1)) < fuel ->
+    forall e, describe_top env fuel name hide r = Throw e -> e <> EOutOfFuel.
+Proof. exact describe_top_terminates. Qed.
+
+(* the two halves: counting enters every named type once; printing enters every alias once and descends along the ranks *)
+Theorem C15_counting_terminates :
+  forall env H, (forall n t, assoc n env = Some t -> ht t <= H) ->
+    forall fuel st r, ht r <= H -> (List.length env + 1) * (H + 1) <= fuel ->
+    forall e, collect env fuel st r = Throw e -> e <> EOutOfFuel.
+Proof.
+  intros env H Hh fuel st r Hr Hf.
+  apply (collect_no_oof env H Hh fuel st r (List.length env) H); [|exact Hr|apply le_n|].
+  - unfold unvisited. etransitivity; [apply filter_length_upper|]. unfold keys. rewrite map_length. apply le_n.
+  - eapply Nat.lt_le_trans; [|exact Hf]. rewrite Nat.mul_add_distr_r, Nat.mul_1_l.
+    apply Nat.add_lt_mono_l. apply Nat.lt_succ_r. rewrite Nat.add_1_r. apply le_n.
+Qed.
+Theorem C15_printing_terminates :
+  forall env counts ranks rl R H fuel md r,
+    term_okb env counts ranks rl R H = true -> ht r <= H -> refs_ok counts (rank_list ranks) rl R r = true ->
+    (List.length env + 1) * ((R + 1) * (H + 1)) < fuel ->
+    forall e, describe env fuel counts md ([], []) r = Throw e -> e <> EOutOfFuel.
+Proof. exact describe_terminates. Qed.
+
+(* non-vacuity: the recursive example above satisfies the hypotheses with the counts the model computes (Node and Leaf are aliases),
+   and so does a type printed in place between two occurrences of a recursive alias; a type printed in place that reached itself
+   would not (the premise is not trivially true) *)
+Definition ex_env2 : renv :=
+  [("Wrap", RObject [("n", RRef "Node2")] []);
+   ("Node2", RObject [("next", ROptional (RRef "Node2")); ("w", ROptional (RArray (RRef "Node2")))] [])].
+Example C15_termination_nonvacuous :
+  (exists c, collect ex_env 50 ([], []) (RObject [("a", RRef "Node"); ("b", RRef "Node"); ("c", RRef "Leaf")] []) = Ok c /\
+             term_okb ex_env (fst c) [] ["Node"; "Leaf"] 1 6 = true) /\
+  (exists c, collect ex_env2 50 ([], []) (RObject [("w", RRef "Wrap")] []) = Ok c /\
+             aliased (fst c) "Wrap" = false /\ aliased (fst c) "Node2" = true /\
+             term_okb ex_env2 (fst c) [("Wrap", 0)] ["Wrap"; "Node2"] 1 6 = true /\
+             refs_ok (fst c) (rank_list [("Wrap", 0)]) ["Wrap"; "Node2"] 1 (RObject [("w", RRef "Wrap")] []) = true) /\
+  term_okb [("Loop", RArray (RRef "Loop"))] [("Loop", 1)] [("Loop", 0)] ["Loop"] 1 6 = false.
+Proof.
+  split; [eexists; split; [vm_compute; reflexivity|vm_compute; reflexivity]|].
+  split; [eexists; split; [vm_compute; reflexivity|repeat split; vm_compute; reflexivity]|].
+  vm_compute. reflexivity.
+Qed.
+
 Print Assumptions C15_aliases_declared_once.
 Print Assumptions C15_describe_restores_active.
 Print Assumptions C15_children_complete.
+Print Assumptions C15_describe_terminates_on_recursive_types.
+Print Assumptions C15_counting_terminates.
+Print Assumptions C15_printing_terminates.
+Print Assumptions C15_termination_nonvacuous.
